@@ -63,7 +63,12 @@ var zz29Rems = []string{"", "/x", "/x/yy/"}
 
 // HarnessC29ResolveChain: resolve()/resolveAsync over a chain n0 -> n1 -> ... -> terminal (or back into the
 // chain) of m mutable hops, with any depth limit, any per-hop TTLs and a remainder.
-func HarnessC29ResolveChain() {
+func HarnessC29ResolveChain() { zz29ResolveChain() }
+
+// HarnessC29ResolveChainSched: the same under explored schedules (spec: sched explore:2).
+func HarnessC29ResolveChainSched() { zz29ResolveChain() }
+
+func zz29ResolveChain() {
 	m := verifrt.NondetRange("m", 1, verifrt.Param("M", 4))
 	// back = -1: the last name points at the immutable terminal; back = j: it points back at name j (a cycle)
 	back := -1
